@@ -1,5 +1,21 @@
 mod common;
 mod c01;
+mod c02;
+mod c03;
+mod c04;
+mod c05;
+mod c06;
+mod c07;
+mod c08;
+mod c09;
+mod c10;
+mod c12;
+mod c13;
+mod c16;
+mod c17;
+mod c18;
+mod c19;
+mod c20;
 
 use vcore::{parse_args, Run};
 
@@ -12,6 +28,22 @@ fn main() {
     type ReplayFn = fn(&Run, &serde_json::Value) -> bool;
     let (run_fn, replay_fn): (RunFn, ReplayFn) = match id.as_str() {
         "C01" => (c01::run, c01::replay),
+        "C02" => (c02::run, c02::replay),
+        "C03" => (c03::run, c03::replay),
+        "C04" => (c04::run, c04::replay),
+        "C05" => (c05::run, c05::replay),
+        "C06" => (c06::run, c06::replay),
+        "C07" => (c07::run, c07::replay),
+        "C08" => (c08::run, c08::replay),
+        "C09" => (c09::run, c09::replay),
+        "C10" => (c10::run, c10::replay),
+        "C12" => (c12::run, c12::replay),
+        "C13" => (c13::run, c13::replay),
+        "C16" => (c16::run, c16::replay),
+        "C17" => (c17::run, c17::replay),
+        "C18" => (c18::run, c18::replay),
+        "C19" => (c19::run, c19::replay),
+        "C20" => (c20::run, c20::replay),
         other => {
             eprintln!("echeck: no end-to-end check for {other}");
             std::process::exit(2);
